@@ -23,6 +23,9 @@ type C01Cfg struct {
 	N        int       `json:"n"`
 	T        int       `json:"t"`
 	Late     int       `json:"late"`
+	// Part, when set, are the nodes that run the key generation (a subset of the membership Deploy.IDs;
+	// identifiers need not be 1..n, node and party identifiers coincide)
+	Part []uint16 `json:"part,omitempty"`
 	// Adapter, when set, makes this run the orchestrated-signing half of the property:
 	// KeyGen then Sign through a tss-lib adapter (EdDSA; ECDSA in the thorough tier).
 	Adapter *AdapterCfg `json:"adapter,omitempty"`
@@ -54,6 +57,11 @@ func genC01(seed uint64, tier string) C01Cfg {
 	c.Serial = r.Bool(0.8)
 	if r.Bool(0.5) {
 		c.Late = r.Intn(n)
+	}
+	// half of the runs: a membership of small but non-contiguous identifiers, possibly larger than the
+	// n parties that generate the key (drawn last so that the other choices of a seed stay what they were)
+	if r.Bool(0.5) {
+		c.Deploy.IDs, c.Part, c.Deploy.PickFixed = sparseMembership(r, n, c.Deploy.Silent, c.Deploy.PickUnsorted)
 	}
 	return c
 }
@@ -157,7 +165,7 @@ func runC01(t *testing.T, spec RunSpec) *RunResult {
 		if a.Deploy.Silent {
 			m = "silent"
 		}
-		res.ConfigKey = fmt.Sprintf("%s n=%d t=%d %s orchestrated-sign digestlen=%d", a.Deploy.Backend, a.N, a.T, m, len(a.Digest))
+		res.ConfigKey = fmt.Sprintf("%s n=%d t=%d %s orchestrated-sign digestlen=%d sparse-ids=%v", a.Deploy.Backend, a.N, a.T, m, len(a.Digest), int(a.Deploy.IDs[len(a.Deploy.IDs)-1]) != len(a.Deploy.IDs))
 		out := runAdapter(t, spec, a, res)
 		for _, v := range out.violations {
 			v.Invariant = "C01/" + v.Invariant
@@ -178,7 +186,14 @@ func runC01(t *testing.T, spec RunSpec) *RunResult {
 	if cfg.Deploy.Silent {
 		mode = "silent"
 	}
-	res.ConfigKey = fmt.Sprintf("bls n=%d t=%d %s serial=%v", cfg.N, cfg.T, mode, cfg.Serial)
+	part := cfg.Part
+	ids := "ids=1..n"
+	if part == nil {
+		part = cfg.Deploy.IDs
+	} else {
+		ids = fmt.Sprintf("ids=sparse members=n+%d", len(cfg.Deploy.IDs)-cfg.N)
+	}
+	res.ConfigKey = fmt.Sprintf("bls n=%d t=%d %s serial=%v %s", cfg.N, cfg.T, mode, cfg.Serial, ids)
 	restore := seedCryptoRand(spec.Seed)
 	defer restore()
 	shares := map[uint16][]byte{}
@@ -194,7 +209,7 @@ func runC01(t *testing.T, spec RunSpec) *RunResult {
 		sched, ss := scheduler(spec, cfg.Strategy)
 		lim := netsim.RunLimits{MaxSteps: 200000, Horizon: 30 * time.Minute, FairAfterSteps: 6000, FairAfter: 2 * time.Minute}
 		st := &starter{}
-		for i, id := range cfg.Deploy.IDs {
+		for i, id := range part {
 			wgt := 3.0
 			if i == cfg.Late {
 				wgt = 0.01
@@ -237,7 +252,7 @@ func runC01(t *testing.T, spec RunSpec) *RunResult {
 		fillResult(res, w, ss)
 	})
 	if completed && len(res.Violations) == 0 {
-		prob, n := blsOracle(cfg.Deploy.IDs, cfg.T, shares, prng.Derive(spec.Seed, "digests"), lg)
+		prob, n := blsOracle(part, cfg.T, shares, prng.Derive(spec.Seed, "digests"), lg)
 		res.Probes["subsets-verified"] = n
 		if prob != "" {
 			res.Violations = append(res.Violations, netsim.Violation{Invariant: "C01/bls-oracle", Class: "C01/bls-oracle", Detail: prob})
